@@ -282,7 +282,8 @@ class Contract:
                 st.heap[sub] = new
 
     def short(self):
-        return self.target.split("::")[1] + (("[" + self.variant + "]") if getattr(self, "variant", None) else "")
+        base = self.target.split("::")[1] if "::" in self.target else self.target.split(":", 1)[1]
+        return base + (("[" + self.variant + "]") if getattr(self, "variant", None) else "")
 
     # ---- verification of the body -------------------------------------------
     def verify(self, eng):
@@ -815,7 +816,31 @@ class LoopSpec:
         return [(st, None)] + outs
 
     def run_while(self, eng, node, st, ordinal):
-        raise Unsupported("while loops")
+        """while cond: body   with invariant self.inv and variant self.variant(L) (Int, bounded below by 0,
+        strictly decreasing)."""
+        import z3 as _z3
+        cL = Ctx(eng, dict(st.heap))
+        outs = []
+        self._assert_inv(eng, st, LoopCtx(eng, st, cL), "%d.init" % ordinal)
+        self._havoc(eng, st)
+        self._assume_inv(eng, st, LoopCtx(eng, st, cL))
+        mark = len(eng.exc_paths)
+        c = eng.truthy(eng.eval(node.test, st), st)
+        s = st.fork()
+        s.assume(c, "line %d: while-true" % node.lineno)
+        st.assume(_z3.Not(c), "line %d: while-exit" % node.lineno)
+        v0 = self.variant(LoopCtx(eng, s, cL)) if getattr(self, "variant", None) else None
+        for (s2, ctrl) in eng.exec_stmts(node.body, s):
+            if ctrl is not None and ctrl[0] == "raise":
+                outs.append((s2, ctrl))
+                continue
+            if ctrl is not None and ctrl[0] in ("return", "break"):
+                raise Unsupported("return/break in while loop")
+            self._assert_inv(eng, s2, LoopCtx(eng, s2, cL), "%d.step" % ordinal)
+            if v0 is not None:
+                v1 = self.variant(LoopCtx(eng, s2, cL))
+                s2.oblige("loop%d.variant_decreases" % ordinal, _z3.And(v0 >= 0, v1 < v0))
+        return [(st, None)] + outs
 
 
 def _target_names(t):
